@@ -81,6 +81,20 @@ def mutations(rng, kb, ver):
             yield "whitespace", s[0] + str(len(s)).zfill(4)[-4:] + s[5:]
             s2 = kb[:pos] + ws + kb[pos + len(ws):]
             yield "whitespace", s2
+    # runs of whitespace substituted for (length preserved) or inserted into (length field stale / fixed up) the binary sections at
+    # pair-aligned and odd offsets: bytes.fromhex skips ASCII whitespace, so the decoded sections come out shorter than their text
+    hx, hy = len(H), len(H) + len(X)
+    for start, size in ((hx, len(X)), (hy, len(Y))):
+        for off in sorted({0, 1, 2, size // 2 - (size // 2) % 2, size - 2, size - 4} & set(range(0, size))):
+            for w in (2, 4, 8, 16, size):
+                if off + w > size:
+                    continue
+                ws = rng.choice([" ", "\t", "\n"]) * w
+                yield "whitespace-run", kb[:start + off] + ws + kb[start + off + w:]
+                for w2 in (bs, 2 * bs):
+                    s = kb[:start + off] + rng.choice([" ", "\n"]) * w2 + kb[start + off:]
+                    yield "whitespace-run", s
+                    yield "whitespace-run", s[0] + str(len(s)).zfill(4)[-4:] + s[5:]
     # truncations (with and without length fix-up)
     for k in list(range(0, 40)) + [len(H), len(H) + 2 * bs, n - 2 * ml, n - 1]:
         s = kb[:k]
@@ -99,7 +113,7 @@ def generate(rng, tier, seed):
             kbpk, h, key, kb = genuine(rng, ver, nblocks=rng.choice([0, 1, 2]))
             muts = list(mutations(rng, kb, ver))
             if tier == "quick":
-                muts = [m for i, m in enumerate(muts) if i % 2 == (seed + ord(ver)) % 2 or m[0] in ("crafted-blocks",)]
+                muts = [m for i, m in enumerate(muts) if i % 2 == (seed + ord(ver)) % 2 or m[0] in ("crafted-blocks", "whitespace-run")]
             for kind, s in muts:
                 c = Case(f"{ver}:{kind}", {})
                 targets(c, rng, kbpk, s)
